@@ -14,7 +14,7 @@ RULE = (
 )
 ASSUMPTIONS = ["the API has no exit status; exit status is compared between the two CLI routes", "the API route is given FluffConfig.from_path(<file>) - the configuration the CLI derives for that file"]
 TIMEOUT = {"quick": 900, "thorough": 1800}
-MIN_NONTRIVIAL = {"quick": 60, "thorough": 500}
+MIN_NONTRIVIAL = {"quick": 25, "thorough": 500}
 REQUIRED_COUNTERS = ["lint_triples_compared", "fix_triples_compared"]
 N = 1500
 
@@ -25,7 +25,7 @@ def cases(tier, seed):
     ids = list(range(N))
     random.Random(f"c19:{seed}").shuffle(ids)
     if tier == "quick":
-        ids = ids[:150]
+        ids = ids[:60]
     return [{"id": f"scen:{i}", "idx": i} for i in ids]
 
 
